@@ -54,6 +54,7 @@ int main(int argc, char **argv)
     if(c == "pitch") return comp_pitch();
     if(c == "synth") return comp_synth();
     if(c == "audio") return comp_audio();
+    if(c == "api") return comp_api();
     fprintf(stderr, "unknown component %s\n", c.c_str());
     return 2;
 }
